@@ -26,7 +26,6 @@ from vlib import hx
 SCRATCH_ROOT = os.environ.get("VERIF_SCRATCH", "/tmp/verif-scratch")
 MAXVIOL = 6
 LEANCHECKER_MODULES = ["FsProofs.C02"]
-KNOWN_ZERO = "C02/copy_file_data/chunk_size_zero"
 
 
 def load_additions(rep):
@@ -133,8 +132,7 @@ def check_copy_loop(rep, drv, rng, chunks, tier):
         cases.append((c, bytes(rng.randrange(256) for _ in range(L)), [rng.randrange(0, 16) for _ in range(rng.randrange(0, 10))]))
     reqs = []
     for c, data, oracle in cases:
-        cc = 1024 * 1024 if c is None else c
-        reqs.append("file.copy %d %s %s" % (cc, hx(data), ",".join(str(o) for o in oracle) or "-"))
+        reqs.append("file.copy %s %s %s" % ("N" if c is None else c, hx(data), ",".join(str(o) for o in oracle) or "-"))
     replies = drv.batch(reqs)
     for (c, data, oracle), model in zip(cases, replies):
         src = ShortReader(data, oracle)
@@ -149,7 +147,7 @@ def check_copy_loop(rep, drv, rng, chunks, tier):
             rep.nontrivial("copy", c, len(data), tuple(oracle))
         case = {"kind": "copy_loop", "chunk": c, "data": data[:64].decode("latin-1"), "len": len(data), "oracle": oracle}
         if written != data:
-            sig = KNOWN_ZERO if c == 0 else "C02/copy_file_data/%s" % c
+            sig = "C02/copy_file_data/%s" % c
             if rep.match_known(sig) or len(rep.violations) < MAXVIOL:
                 rep.violation(case, "copy_file_data(chunk_size=%r) wrote %d of %d bytes (reads asked: %r)"
                               % (c, len(written), len(data), src.calls[:5]), found_input=True, signature=sig)
@@ -399,13 +397,18 @@ def check_matrix(rep, rng, B, chunks, tier):
                 rep.programs += 1
                 wfn(f, "f.bin", data, 7)
                 verify_file(rep, f, kind, wname, 7, data)
-            # the excluded point of copy_file_data_exact
-            rep.programs += 1
-            f.upload("zero.bin", io.BytesIO(b"abc"), chunk_size=0)
-            if f.readbytes("zero.bin") != b"abc":
-                fail(rep, {"kind": "upload0", "backend": kind},
-                     "%s: upload(path, file, chunk_size=0) silently stored %r instead of b'abc'" % (kind, f.readbytes("zero.bin")),
-                     KNOWN_ZERO)
+            # chunk_size=0 means "default" since b5a3d6c (it used to copy nothing)
+            for data in (b"abc", make_data(rng, 5000)):
+                rep.programs += 1
+                f.upload("zero.bin", io.BytesIO(data), chunk_size=0)
+                verify_file(rep, f, kind, "upload-chunk0", 7, data, p="zero.bin")
+                sink = io.BytesIO()
+                f.download("zero.bin", sink, chunk_size=0)
+                rep.evaluations += 1
+                if sink.getvalue() != data:
+                    fail(rep, {"kind": "download0", "backend": kind, "len": len(data)},
+                         "%s: download(path, file, chunk_size=0) returned %d of %d bytes" % (kind, len(sink.getvalue()), len(data)),
+                         "C02/%s/download/chunk0" % kind)
         finally:
             f.close()
 
@@ -605,7 +608,7 @@ def replay(rep, case):
     c = case["case"]
     B = Backends()
     try:
-        if c.get("kind") == "upload0":
+        if c.get("kind") in ("upload0", "download0"):
             f = B.make(c["backend"])
             f.upload("zero.bin", io.BytesIO(b"abc"), chunk_size=0)
             got = f.readbytes("zero.bin")
@@ -623,7 +626,10 @@ def replay(rep, case):
         if c.get("kind") == "matrix":
             f = B.make(c["backend"] if c["backend"] in ("mem", "os") else "mem")
             data = make_data(vlib.rng_for(0, "replay"), c["len"])
-            dict(WRITE_PATHS)[c["write"]](f, "f.bin", data, c["chunk"])
+            if c["write"] == "upload-chunk0":
+                f.upload("f.bin", io.BytesIO(data), chunk_size=0)
+            else:
+                dict(WRITE_PATHS)[c["write"]](f, "f.bin", data, c["chunk"])
             got = dict(READ_PATHS)[c["read"]](f, "f.bin", c["chunk"]) if "read" in c else f.readbytes("f.bin")
             print("%s then %s: %s" % (c["write"], c.get("read", "readbytes"), "identical" if got == data else "DIFFERS"))
             return 0 if got == data else 1
